@@ -117,7 +117,10 @@ def make_data(mjm, m, dspec):
     if key is not None and mjm.nkey > key:
       mujoco.mj_resetDataKeyframe(mjm, mjd, key)
     if dspec.get("put_forward", True):
-      mujoco.mj_forward(mjm, mjd)
+      try:
+        mujoco.mj_forward(mjm, mjd)
+      except Exception:  # mujoco.FatalError on a degenerate pose: load the un-forwarded MjData instead
+        mjd = mujoco.MjData(mjm)
     try:
       d = mjw.put_data(mjm, mjd, nworld=nworld, **caps)
     except ValueError as e:
